@@ -382,10 +382,51 @@ def control_handmade(ctx):
     control(ctx, "C15.R6", "format! -> RawValue::from_string", lambda r: _handmade_scan(ctx.F, r, ("verif_fixtures",), 1))
 
 
-CONTROLS = [control_handmade]
+def _borrowed_str_scan(F, R, crate_pat):
+    """a `&str` (or `&[u8]`) deserialised from JSON exists only when the string has no escape sequences: serde_json cannot
+    borrow an escaped string and fails with 'expected a borrowed string'. Wire types must deserialise strings through a
+    visitor's visit_str or into Cow/String."""
+    n = 0
+    for b in F.real_bodies():
+        if not re.search(crate_pat, b.path) or is_test_body(b):
+            continue
+        for c in b.calls:
+            nm = c.name() or ""
+            if re.search(r"(MapAccess|SeqAccess)(<'\w+>)?>?::next_(value|element|key)$", c.callee or ""):
+                # derive-generated (or hand-written) member reads: the member type is the last generic argument
+                n += 1
+                st = re.sub(r"^std::option::Option<(.*)>$", r"\1", (c.ga or [""])[-1])
+            elif re.search(r"Deserialize(<'\w+>)?>?::deserialize$", nm) or re.search(r"Deserialize(<'\w+>)?>?::deserialize$", c.callee or ""):
+                n += 1
+                st = c.self_ty or ""
+            else:
+                continue
+            if re.match(r"^&('\w+ )?(str|\[u8\])$", st):
+                R.bad("C15.R7", "%s:borrowed-%s" % (fkey(b), "str" if "str" in st else "bytes"), "%s deserialises a borrowed `%s`: a JSON string written with escapes (e.g. \"2\\u002e0\") is the same value but cannot be borrowed, so the message is rejected" % (short(b.path), st), where(c))
+    return n
 
 
-RULES = [r1_code_tables, r2_serializer, r3_field_tables, r4_duplicate_guards, r5_acceptance_table, r6_no_handmade_json]
+def r7_no_borrowed_str(ctx):
+    F, R = ctx.F, ctx.R
+    n = _borrowed_str_scan(F, R, r"^<?jsonrpsee_(types|core)::")
+    R.ok("C15.R7", "no-borrowed-str", "%d Deserialize::deserialize calls and member reads (next_value/next_element/next_key) inspected; none targets &str / &[u8]" % n)
+    R.floor("C15.R7", n, 40, "deserialisation sites in types/core")
+
+
+def control_borrowed_str(ctx):
+    control(ctx, "C15.R7", "<&str>::deserialize", lambda r: _borrowed_str_scan(ctx.F, r, r"^<?verif_fixtures::"))
+
+
+def r8_into_owned_is_fieldwise(ctx):
+    """`into_owned` changes lifetimes, not values (see common.into_owned_fieldwise)"""
+    from .common import into_owned_fieldwise
+    into_owned_fieldwise(ctx, "C15.R8", r"^jsonrpsee_types::(response::Response|error::ErrorObject)::<.*>::into_owned$", 2)
+
+
+CONTROLS = [control_handmade, control_borrowed_str]
+
+
+RULES = [r1_code_tables, r2_serializer, r3_field_tables, r4_duplicate_guards, r5_acceptance_table, r6_no_handmade_json, r7_no_borrowed_str, r8_into_owned_is_fieldwise]
 
 LEVEL_TEXT = (
     "Decision tables and structural facts extracted exactly from the type-checked serde code: the error-code tables are "
